@@ -46,9 +46,13 @@ pub fn run(ctx: &Ctx, p: &str) {
             cases.push(Case { label: format!("hex encode:len={n}"), argv: sv(&["hex", "encode"]), content: m.clone(), want: line(format!("0x{}", hex(&m))), has_default: true });
             cases.push(Case { label: format!("hex decode:len={n}"), argv: sv(&["hex", "decode"]), content: format!("0x{}", hex(&m)).into_bytes(), want: m.clone(), has_default: true }); }
     }
-    let total = (cases.len() * CHANNELS.len()) as u64;
-    ctx.sweep("input-channels", "every input-reading command x contents needing zero, one and several reads x 8 ways the input can arrive (regular file, `-` + pipe, /dev/stdin + pipe, /proc/self/fd/0 + pipe, /dev/stdin + regular file, symbolic link, named pipe, no argument + pipe where the argument is optional): the reference output every time", total, |i| {
-        let c = &cases[i as usize / CHANNELS.len()]; let ch = CHANNELS[i as usize % CHANNELS.len()];
+    // the environment's other legal answer: short reads (every read(2) returns at most n bytes), owned through the LD_PRELOAD shim
+    let chunks: Vec<usize> = if ctx.quick() { vec![0, 1, 4096] } else { vec![0, 1, 2, 7, 4096, 65_535] };
+    let total = (cases.len() * CHANNELS.len() * chunks.len()) as u64;
+    ctx.sweep("input-channels", "every input-reading command x contents needing zero, one and several reads x 8 ways the input can arrive x read(2) answering in full or with at most 1 / 4096 bytes per call (thorough: 1, 2, 7, 4096, 65535) (regular file, `-` + pipe, /dev/stdin + pipe, /proc/self/fd/0 + pipe, /dev/stdin + regular file, symbolic link, named pipe, no argument + pipe where the argument is optional): the reference output every time", total, |i| {
+        let chunk = chunks[i as usize % chunks.len()]; let k = i / chunks.len() as u64;
+        let c = &cases[k as usize / CHANNELS.len()]; let ch = CHANNELS[k as usize % CHANNELS.len()];
+        if chunk == 1 && c.content.len() > 100_000 { return; }
         if ch == "default-pipe" && !c.has_default { return; }
         let argv: Vec<&str> = c.argv.iter().map(|s| s.as_str()).collect(); let mut cmd = Cmd::new(&argv); let mut files: Vec<String> = Vec::new();
         match ch {
@@ -61,9 +65,11 @@ pub fn run(ctx: &Ctx, p: &str) {
             "named-pipe" => { let f = scratch_file("input-channels", i, "fifo", b""); cmd = cmd.arg(&f).fifo(&f, &c.content); files.push(f); }
             _ => { cmd = cmd.stdin(&c.content); }
         }
+        if chunk > 0 { cmd = cmd.env("LD_PRELOAD", &crate::shim::shim_path()).env("HDW_READ_CHUNK", &chunk.to_string()); }
         let r = cmd.run(Build::Release); for f in &files { rm(f); }
+        let ch = &format!("{ch}{}", if chunk > 0 { format!(",reads<={chunk}") } else { String::new() });
         let shape = format!("{}:{ch}", c.label);
-        let replay = serde_json::json!({"sweep": "input-channels", "index": i, "entry": "CLI", "command": trunc(&cmd.shown(), 400), "channel": ch, "content_len": c.content.len(), "content_hex_prefix": hex(&c.content[..c.content.len().min(64)])});
+        let replay = serde_json::json!({"sweep": "input-channels", "index": i, "entry": "CLI", "command": trunc(&cmd.shown(), 400), "channel": ch, "read_chunk": chunk, "content_len": c.content.len(), "content_hex_prefix": hex(&c.content[..c.content.len().min(64)])});
         ctx.sample("input-channels", || replay.clone());
         if r.crashed() { ctx.eval(format!("{shape}:{}", r.crash_kind())); ctx.panic_violation(format!("{p}:cli:input-channel:{}:{ch}:{}", c.argv[..2.min(c.argv.len())].join("-"), r.crash_kind()), r.describe(), replay); return; }
         ctx.eval(format!("{shape}:{}", if r.ok() { "printed" } else { "refused" }));
